@@ -483,7 +483,7 @@ pub fn c18(ctx: &mut Ctx) {
         }
     }
     // generated clauses / unicode
-    let n = ctx.budget(150_000, 6_000_000);
+    let n = ctx.budget(150_000, 40_000_000);
     let mut rng = ctx.rng_global("c18");
     for i in 0..n {
         idx += 1;
@@ -516,7 +516,7 @@ pub fn c18(ctx: &mut Ctx) {
 pub fn c12(ctx: &mut Ctx) {
     let dict = FstDictionary::curated();
     let corpus = load_corpus();
-    let n = ctx.budget(60_000, 3_000_000);
+    let n = ctx.budget(60_000, 2_000_000);
     let mut rng = ctx.rng_global("c12");
     let mut lg = LintGroup::new_curated(dict.clone(), Dialect::American);
     lg.set_all_rules_to(Some(true));
